@@ -320,7 +320,7 @@ fn c15_receive_forwarding() {
     };
     let (wf, ntlv, _) = ref_tlv_walk(&sbuf[..slen], 3);
     assert!(wf, "TlvSet::deserialize accepted a malformed suffix");
-    let it: PortActionIterator<'_> = actions![PortAction::ResetAnnounceReceiptTimer { duration: core::time::Duration::from_secs(3) }];
+    let it: PortActionIterator<'_> = actions![PortAction::ResetAnnounceReceiptTimer { duration: core::time::Duration::new(3, 0) }];
     let r = drain_announce(it.with_forward_tlvs(suffix.tlv(), sender), sender);
     assert!(r.reset_receipt == 1 && r.other == 0);
     let mut want = 0u8;
